@@ -1,6 +1,7 @@
 package vuego
 
 import (
+	"fmt"
 	"strings"
 
 	"golang.org/x/net/html"
@@ -21,6 +22,16 @@ func (v *Vue) evalConditionExpr(ctx VueContext, expr string) (bool, error) {
 
 	// Normalize comparison operators: coalesce === to == and !== to !=
 	expr = helpers.NormalizeComparisonOperators(expr)
+
+	// A call of a registered function is evaluated like in {{ }}: an unknown function, a wrong
+	// argument or a failing function fails the render instead of being false
+	if !helpers.IsComplexExpr(expr) && !strings.Contains(expr, "|") && helpers.IsFunctionCall(expr) {
+		val, err := v.evalPipe(ctx, parsePipeExpr(expr))
+		if err != nil {
+			return false, fmt.Errorf("in expression '%s': %w", expr, err)
+		}
+		return helpers.IsTruthy(val), nil
+	}
 
 	// Try to evaluate as expr expression first (supports ==, !=, &&, ||, !, <, >, <=, >=, and function calls)
 	result, err := v.exprEval.Eval(expr, ctx.stack.EnvMap())
